@@ -24,17 +24,18 @@ def space(tier):
 
 
 def param_sets(tier):
+    q = tier == 'quick'
     out = [('Constant', {}), ('Identity', {}), ('Indicator', {'a': -0.5, 'b': 0.7})]
-    for e in range(6):
-        for p in (1, -2.5):
+    for e in range(6 if q else 9):
+        for p in ((1, -2.5) if q else (1, -2.5, 0.3)):
             out.append(('Monomial', {'exponent': e, 'prefactor': p}))
-    for dg in range(7):
-        for dom in (1.0, 0.5, 3.0):
+    for dg in range(7 if q else 11):
+        for dom in ((1.0, 0.5, 3.0) if q else (1.0, 0.5, 3.0, 2.0)):
             out.append(('Legendre', {'degree': dg, 'domain': dom}))
-    for al in (1, 0.5, -2, 3):
+    for al in ((1, 0.5, -2, 3) if q else (1, 0.5, -2, 3, 0.1, -7.5)):
         out.append(('Sin', {'alpha': al})); out.append(('Cos', {'alpha': al}))
-    for mu in (0, 0.7, -1.3):
-        for var in (1, 0.25, 2):
+    for mu in ((0, 0.7, -1.3) if q else (0, 0.7, -1.3, 2.5)):
+        for var in ((1, 0.25, 2) if q else (1, 0.25, 2, 0.05)):
             out.append(('Gauss', {'mean': mu, 'variance': var})); out.append(('PeriodicGauss', {'mean': mu, 'variance': var}))
     for deg in (1, 2, 3):
         for ki, knots in enumerate(([-2.0, -0.5, 0.3, 2.0], [-2.0, -1.0, 0.0, 0.8, 2.0])):
@@ -46,7 +47,7 @@ def param_sets(tier):
 
 def cases(tier):
     for fam, par in param_sets(tier):
-        for dim in (1, 2, 3):
+        for dim in ((1, 2, 3) if tier == 'quick' else (1, 2, 3, 4)):
             for index in range(dim):
                 for given in (True, False):
                     yield {'fam': fam, 'par': par, 'dim': dim, 'index': index, 'given': given}
